@@ -267,6 +267,17 @@ def AState.run (s : AState) : List Tok → Option AState
 
 def AState.init : AState := {}
 
+/-! ### StackDepth / StackIndex (decode.go:1181-1209, encode.go:956-984) -/
+
+/-- `StackDepth()`: `Tokens.Depth() - 1`. -/
+def stackDepth (m : Machine) : Nat := m.depth - 1
+
+/-- `StackIndex(i)`: `Tokens.index(i)` is `Last` for `i == len(Stack)` and `Stack[i]` otherwise (`none`: the Go code
+panics with an index out of range); kind 0 for level 0, '{' or '[' above. -/
+def stackIndex (m : Machine) (i : Nat) : Option (UInt8 × Nat) :=
+  (if i = m.stack.length then some m.last else m.stack[i]?).map fun e =>
+    (if i > 0 ∧ e.isObject then 0x7b else if i > 0 ∧ e.isArray then 0x5b else 0, e.length)
+
 /-! ### the same on the packed state machine (`state{Tokens stateMachine; Names objectNameStack}`) -/
 
 /-- `Tokens` as the packed `Machine` of Model/State.lean and `Names` (innermost first, one slot per open object). -/
